@@ -185,7 +185,7 @@ def digitChar (d : Nat) : Char := Char.ofNat (d + 48)
 
 /-- decimal digits of `n` (equal to `toString n`; defined by recursion to keep proofs simple) -/
 def natDigits (n : Nat) : List Char :=
-  if h : n < 10 then [digitChar n] else natDigits (n / 10) ++ [digitChar (n % 10)]
+  if _h : n < 10 then [digitChar n] else natDigits (n / 10) ++ [digitChar (n % 10)]
 termination_by n
 decreasing_by omega
 
